@@ -276,6 +276,37 @@ func checkC17(c *Ctx) {
 			}
 		}
 		rec(nil)
+		// one PROCESS using the same plugin twice while PATH changes in between: each use searches PATH afresh
+		{
+			seqd := filepath.Join(lp, "seq")
+			d1, d2 := filepath.Join(seqd, "first"), filepath.Join(seqd, "second")
+			place(d1, "SEQ-FIRST")
+			oldPath, oldMark := os.Getenv("PATH"), os.Getenv("VERIF_LP_MARK")
+			os.Setenv("VERIF_LP_MARK", lpmark)
+			os.Setenv("VERIF_PLUGIN_SCRIPT", script)
+			use := func() string {
+				os.Remove(lpmark)
+				r, err := plugin.NewRecipient(craft("age1lp", toSyms([]byte("data")), false), uiCfg{"ok", "ok", "yes"}.client())
+				if err == nil {
+					r.Wrap(make([]byte, 16))
+				}
+				b, _ := os.ReadFile(lpmark)
+				return strings.Join(strings.Fields(string(b)), ",")
+			}
+			os.Setenv("PATH", d1+":/usr/bin:/bin")
+			a := use()
+			place(d2, "SEQ-SECOND") // a same-named program appears EARLIER on PATH; the first one still exists
+			os.Setenv("PATH", d2+":"+d1+":/usr/bin:/bin")
+			b := use()
+			os.Setenv("PATH", d1+":/usr/bin:/bin")
+			c3 := use()
+			os.Setenv("PATH", oldPath)
+			os.Setenv("VERIF_LP_MARK", oldMark)
+			in := map[string]interface{}{"sequence": "PATH=first; PATH=second:first; PATH=first", "ran": []string{a, b, c3}}
+			c.Oracle("only-the-program-found-on-PATH-runs", a == "SEQ-FIRST" && b == "SEQ-SECOND" && c3 == "SEQ-FIRST", "stale-plugin-location", in,
+				fmt.Sprintf("the program started is not the one a PATH search finds at that moment: %q, %q, %q", a, b, c3))
+			c.count("path-sequence-in-one-process")
+		}
 		// a program of the right name that is NOT on PATH — next to the running age binary, in the working
 		// directory, in $TMPDIR, in $HOME — is never run
 		next := filepath.Join(filepath.Dir(binPath("age")), "age-plugin-nextto")
